@@ -399,4 +399,72 @@ example : (Gen.Marshal.bytesToInt64 [0xff#8, 0xfe#8]).toInt = 65534 := by decide
 example : Gen.Marshal.bytesToUint64 [1#8, 2#8, 3#8, 4#8, 5#8, 6#8, 7#8, 8#8, 9#8] = 0x0203040506070809#64 := by decide
 
 
+
+/-! ### The accumulation loop of `decVint` (duration vints), a statement segment translated as a counted loop -/
+
+/-- one step of the `decVint` loop on the 64-bit accumulator: `ret <<= 8; ret |= uint64(data[i+1] & 0xff)` -/
+def vstep (acc : BitVec 64) (x : BitVec 8) : BitVec 64 := (acc <<< 8) ||| ((x &&& 0xff#8).setWidth 64)
+
+theorem vloop (d : List (BitVec 8)) (s0 n0 : Nat) (hB : s0 + n0 + 1 ≤ d.length) (hd : d.length < 2^60) :
+    ∀ (n s : Nat) (ret : BitVec 64), s + n = s0 + n0 →
+      Gen.Marshal.decVint_decVintLoop_loop1 d (BitVec.ofNat 64 s0) (BitVec.ofNat 64 n0) n (BitVec.ofNat 64 s) ret
+        = ((d.drop (s + 1)).take n).foldl vstep ret := by
+  intro n
+  induction n with
+  | zero => intro s ret _; simp [Gen.Marshal.decVint_decVintLoop_loop1]
+  | succ n ih =>
+    intro s ret hs
+    rw [Gen.Marshal.decVint_decVintLoop_loop1]
+    have hb : BitVec.ofNat 64 s0 + BitVec.ofNat 64 n0 = BitVec.ofNat 64 (s0 + n0) := by
+      apply BitVec.eq_of_toNat_eq; simp
+    rw [hb, slt_small s (s0 + n0) (by omega) (by omega)]
+    simp only [if_true]
+    have hi : (BitVec.ofNat 64 s + 0x1#64).toNat = s + 1 := by simp; omega
+    have hadd : BitVec.ofNat 64 s + 0x1#64 = BitVec.ofNat 64 (s + 1) := by
+      apply BitVec.eq_of_toNat_eq; simp
+    rw [hi, hadd, ih (s + 1) _ (by omega)]
+    have hlt : s + 1 < d.length := by omega
+    have hR : (d.drop (s + 1)).take (n + 1) = d[s+1] :: (d.drop (s + 1 + 1)).take n := by
+      rw [List.drop_eq_getElem_cons hlt]; rfl
+    have hg : d.getD (s + 1) 0#8 = d[s+1] := by
+      rw [List.getD_eq_getElem?_getD, List.getElem?_eq_getElem hlt]; rfl
+    rw [hR, List.foldl_cons, hg]
+    rfl
+
+/-- the loop of `decVint` (`for i := start; i < start+numBytes; i++ { ret <<= 8; ret |= uint64(data[i+1] & 0xff) }`),
+    whenever the bytes are there (`decVint` has checked `len(data) ≥ start+numBytes+1` before): the fold of `vstep`
+    over the `numBytes` bytes after the first -/
+theorem decVintLoop (d : List (BitVec 8)) (s n : Nat) (hB : s + n + 1 ≤ d.length) (hd : d.length < 2^60) (ret : BitVec 64) :
+    Gen.Marshal.decVintLoop d (BitVec.ofNat 64 s) (BitVec.ofNat 64 n) ret = ((d.drop (s + 1)).take n).foldl vstep ret := by
+  unfold Gen.Marshal.decVintLoop
+  have hf : ((BitVec.ofNat 64 s + BitVec.ofNat 64 n) - BitVec.ofNat 64 s).toNat = n := by
+    have : BitVec.ofNat 64 s + BitVec.ofNat 64 n - BitVec.ofNat 64 s = BitVec.ofNat 64 n := by
+      apply BitVec.eq_of_toNat_eq; simp [BitVec.toNat_sub]; omega
+    rw [this]; simp; omega
+  simp only [hf]
+  exact vloop d s n hB hd n s ret rfl
+
+/-- `vstep` on the value level is the model's accumulator step `(acc * 256 + x) % 2^64` -/
+theorem vstep_val (acc : BitVec 64) (x : UInt8) :
+    (vstep acc x.toBitVec).toNat = (acc.toNat * 256 + x.toNat) % 2^64 := by
+  unfold vstep
+  have hx256 := x.toNat_lt
+  have hx : ((x.toBitVec &&& 0xff#8).setWidth 64).toNat = x.toNat := by
+    have := x.toNat_lt
+    simp [BitVec.toNat_and]
+    have h255 : (255:Nat) = 2^8 - 1 := rfl
+    rw [h255, Nat.and_two_pow_sub_one_eq_mod]; omega
+  rw [BitVec.toNat_or, BitVec.toNat_shiftLeft, hx, Nat.shiftLeft_eq]
+  have hsplit : (2:Nat)^64 = 2^56 * 2^8 := by decide
+  have hm : acc.toNat * 2^8 % 2^64 = (acc.toNat % 2^56) * 2^8 := by rw [hsplit, Nat.mul_mod_mul_right]
+  rw [hm, ← Nat.shiftLeft_eq, ← Nat.shiftLeft_add_eq_or_of_lt (by have := x.toNat_lt; omega), Nat.shiftLeft_eq]
+  omega
+
+theorem vfold_val (xs : List UInt8) (acc : BitVec 64) :
+    ((xs.map (·.toBitVec)).foldl vstep acc).toNat = xs.foldl (fun a x => (a * 256 + x.toNat) % 2^64) acc.toNat := by
+  induction xs generalizing acc with
+  | nil => rfl
+  | cons x xs ih => simp only [List.map_cons, List.foldl_cons]; rw [ih, vstep_val]
+
+
 end GenTie.C12
